@@ -19,7 +19,7 @@ def FLOORS(tier):
     q = tier == "quick"
     f = {"result-contract-checks": 2500 if q else 10 ** 5, "empty-or-constant-model": 60, "matrix-with-gaps": 100,
          "with-initial_state": 600, "num_anneals<=0": 300, "hook-dE-checks": 10 ** 5, "hook-exactness-verdicts": 2000, "schedule:one-shot-iterator": 30, "second-anneal-after-in-place-edit": 150,
-         "second-anneal:cancel": 20, "second-anneal:set0": 20, "returned-state-scribbled": 300, "kwargs-spelled-as-numpy-scalars": 200,
+         "second-anneal:cancel": 20, "second-anneal:set0": 20, "second-anneal:with-initial_state": 15, "returned-state-scribbled": 300, "kwargs-spelled-as-numpy-scalars": 200, "constrained-model-with-ancillas": 40,
          "user-mapping:set_mapping": 40, "user-mapping:set_reverse_mapping": 40, "coefficients:wide-big": 100, "coefficients:wide-small": 60}
     for fn in A.FUNCS:
         for t in A.ACCEPT[fn]:
@@ -58,6 +58,8 @@ def case(ctx, rng, idx):
     if cfg["user_mapping"]:
         ctx.cat("user-mapping:" + cfg["user_mapping"])
     ctx.cat("coefficients:" + cfg["coef_kind"])
+    if cfg["constrained"]:
+        ctx.cat("constrained-model-with-ancillas" if getattr(cfg["model"], "num_ancillas", 0) else "constrained-model")
     if cfg["numpy_spelled"]:
         ctx.cat("kwargs-spelled-as-numpy-scalars")
     if not A.hook_verdict(ctx, w, exact=cfg["coef_kind"] != "given"):
@@ -104,7 +106,12 @@ def case(ctx, rng, idx):
             return
         ctx.cat("second-anneal-after-in-place-edit")
         ctx.cat("second-anneal:" + edit)
-        ok, res2 = ctx.call(cfg["fn"], fn, m, _w=dict(w, edit=edit, terms_now=dict(m)), **callkw)
+        callkw = dict(callkw)
+        if (cfg["fn"], cfg["type"]) in (("anneal_puso", "PUSO"), ("anneal_puso", "PCSO"), ("anneal_puso", "QUSO"), ("anneal_quso", "QUSO")) and rng.random() < 0.6:
+            dom_ = (1, -1) if A.is_spin(cfg["fn"]) else (0, 1)
+            callkw["initial_state"] = {x: rng.choice(dom_) for x in m.variables}      # complete over the model's (reported) variables
+            ctx.cat("second-anneal:with-initial_state")
+        ok, res2 = ctx.call(cfg["fn"], fn, m, _w=dict(w, edit=edit, terms_now=dict(m), kwargs=callkw), **callkw)
         if not ok or not A.check_results_lenient(ctx, cfg, m, res2, tag="second-anneal:"):
             return
     if len(cfg["true_vars"]) >= 2 and len(cfg["terms"]) >= 2 and cfg["kw"]["num_anneals"] >= 1:
